@@ -33,7 +33,23 @@ func Expiry() {
 	N := vx.Param("N")
 	freeze := vx.Param("freeze") == 1
 	E, I := secs(pol.Expire), secs(pol.Revoke)
+	// reads=1: the session also keeps decrypting its first record at arbitrary instants between the encrypts;
+	// reads must not keep an intermediate key in use whose system key has expired
+	reads := vx.Param("reads") == 1
+	var first *ae.DataRowRecord
 	for i := 0; i < N; i++ {
+		if reads && first != nil {
+			for j := 0; j < 2; j++ {
+				if vx.Choice("read_old_record", 2) == 1 {
+					vx.ClockFreeze(false)
+					vx.Now()
+					vx.ClockFreeze(freeze)
+					out, err := sess.Decrypt(env.Ctx, *first)
+					vx.Assert("C04.old_record_still_decrypts", vx.And(err == nil, vx.BytesEq(out, []byte{0})))
+					vx.Reach("C04.read_between_encrypts")
+				}
+			}
+		}
 		vx.ClockFreeze(false)
 		ts, tn := vx.Now()
 		vx.ClockFreeze(freeze)
@@ -42,6 +58,9 @@ func Expiry() {
 		vx.Assert("C04.encrypt_ok_when_store_accepts", err == nil)
 		if err != nil {
 			vx.Stop()
+		}
+		if first == nil {
+			first = drr
 		}
 		ik := drr.Key.ParentKeyMeta.Created
 		// 1. the named IK is not older than the key lifetime at the instant of the call
